@@ -1,6 +1,7 @@
 package checks
 
 import (
+	"strings"
 	"bytes"
 	"fmt"
 	"sync"
@@ -94,6 +95,9 @@ func c06Body(g gen.G, id uint16, v2019 bool, phone string) []byte {
 				i := g.Intn(len(b))
 				b[i] ^= []byte{0x01, 0x10, 0x20, 0x80}[g.Intn(4)]
 				auth = string(b)
+				if up := strings.ToUpper(phone); up != phone && g.Bool() {
+					auth = up // the same letters in upper case
+				}
 			default:
 				auth = ""
 			}
@@ -166,6 +170,14 @@ func c06Conversation(addr string, cid int, seed uint64, nreq int, mode int, wrap
 		return
 	}
 	defer t.Close()
+	if cid%7 == 3 {
+		// a phone field with non-decimal nibbles (a..f): the server renders it in lower-case hex; that string is the right auth code,
+		// the same letters in another case are not
+		for i := len(t.BCD) - 4; i < len(t.BCD); i++ {
+			t.BCD[i] = []byte{0x1a, 0x2b, 0x3c, 0xd4, 0xe5, 0xf6, 0xab, 0xcd}[(cid+i)%8]
+		}
+		t.Phone = ref.PhoneString(t.BCD)
+	}
 	if v2019 && cid%3 != 0 {
 		// the protocol-version-number byte of the 2019 header is the terminal's business: 0, 2, 0x7d (escaped on the wire), 0xff ...
 		t.VerByte = 1 + int([]byte{0, 2, 0x7d, 0x7e, 0xff, 3}[cid/3%6])
